@@ -218,3 +218,42 @@ pub struct Tag {
     pub expect_msid: Option<u32>,
     pub age: u64,
 }
+
+// ------------------------------------------------------------------------------------------------
+// Canonical text of events (AMF0 objects sorted by name: HashMap iteration order is random)
+
+fn canon(v: &rml_amf0::Amf0Value) -> String {
+    format!("{:?}", ra::from_lib(v))
+}
+
+pub fn fmt_server_event(e: &ServerSessionEvent) -> String {
+    match e {
+        ServerSessionEvent::UnhandleableAmf0Command { command_name, transaction_id, command_object, additional_values } => format!(
+            "UnhandleableAmf0Command({:?}, {:#x}, {}, [{}])",
+            command_name,
+            transaction_id.to_bits(),
+            canon(command_object),
+            additional_values.iter().map(canon).collect::<Vec<_>>().join(", ")
+        ),
+        other => format!("{:?}", other).replace("NaN", "nan"),
+    }
+}
+
+pub fn fmt_client_event(e: &ClientSessionEvent) -> String {
+    match e {
+        ClientSessionEvent::UnhandleableAmf0Command { command_name, transaction_id, command_object, additional_values } => format!(
+            "UnhandleableAmf0Command({:?}, {:#x}, {}, [{}])",
+            command_name,
+            transaction_id.to_bits(),
+            canon(command_object),
+            additional_values.iter().map(canon).collect::<Vec<_>>().join(", ")
+        ),
+        ClientSessionEvent::UnknownTransactionResultReceived { transaction_id, command_object, additional_values } => format!(
+            "UnknownTransactionResultReceived({:#x}, {}, [{}])",
+            transaction_id.to_bits(),
+            canon(command_object),
+            additional_values.iter().map(canon).collect::<Vec<_>>().join(", ")
+        ),
+        other => format!("{:?}", other).replace("NaN", "nan"),
+    }
+}
